@@ -498,7 +498,7 @@ def group_datetime(ctx, stats):
     terms = []
     for k in range(0, len(idx), B):
         items = ['(%s, %s)' % (coq_dt(pairs[i][0], resolved[i][0]), coq_dt(pairs[i][1], resolved[i][1])) for i in idx[k:k + B]]
-        terms.append('map (fun p => let a := fst p in let b := snd p in (dt_compare_impl a b, dt_subtract_impl a b, dt_subtract_spec a b, weekday_orig (dt_date a))) [%s]' % '; '.join(items))
+        terms.append('map (fun p => let a := fst p in let b := snd p in (dt_compare_impl a b, dt_subtract_impl a b, dt_subtract_spec a b, weekday_orig (dt_date a), chrono_dt a && chrono_dt b)) [%s]' % '; '.join(items))
     model = dict(zip(idx, [x for part in ctx.run_model(HEADER, terms, shard_size=2, tag='E') for x in part]))
     for i, ((a, b), rq, r) in enumerate(zip(pairs, reqs, impl)):
         ctx.evaluations += 1
@@ -533,9 +533,12 @@ def group_datetime(ctx, stats):
         if v[19] != {'d': '%s%04d-%02d-%02d' % ('-' if y < 0 else '', abs(y), m, d)} and parse_date_text((v[19] or {}).get('d', '') if isinstance(v[19], dict) else '') != (y, m, d):
             ctx.violation('date(%s) is %s' % (dt_lit(a), v[19]), case, impl=v[19])
             continue
-        mc, ms, spec, mw = model[i]
+        mc, ms, spec, mw, in_chrono = model[i]
         mc, ms, mw = opt(mc), opt(ms), opt(mw)
-        far = not all(CHRONO_MIN <= x[0][0] <= CHRONO_MAX for x in (a, b))
+        far = not in_chrono      # a year outside chrono's range, or the boundary year with an offset that moves the UTC date-time outside it
+        if far and all(CHRONO_MIN < x[0][0] < CHRONO_MAX for x in (a, b)):
+            raise RuntimeError('C15 model calls %s far although both years are inside chrono\'s range' % rq['e'])
+        far_date = not (CHRONO_MIN <= y <= CHRONO_MAX)
         # independent recomputation of the instant difference
         def inst(x, o):
             (yy, mm, dd), hh, mmi, ss, nn, _ = x
@@ -548,7 +551,7 @@ def group_datetime(ctx, stats):
         # weekday
         ww = weekday(y, m, d)
         if num(v[8]) != ww:
-            if not (num(v[8]) is None and far and ctx.known('far-datetime', case)):
+            if not (num(v[8]) is None and far_date and ctx.known('far-datetime', case)):
                 ctx.violation('weekday of %s is %s, the calendar says %s' % (dt_lit(a), v[8], ww), case, impl=v[8], model=ww)
                 continue
         # comparison
@@ -625,7 +628,7 @@ def group_months(ctx, stats):
 def group_durations(ctx, stats):
     rng = ctx.rng
     base = [0, 1, 999999999, NS, 59 * NS, 60 * NS, 3599 * NS, 3600 * NS, 86399 * NS + 999999999, DAY_NS, DAY_NS + 1, 36 * 3600 * NS, 400 * DAY_NS + 3 * 3600 * NS + 4 * 60 * NS + 5 * NS + NS // 2,
-            106751 * DAY_NS, 2 ** 63, 2 ** 64 * NS, 10 ** 15 * DAY_NS]
+            106751 * DAY_NS, 2 ** 63, 2 ** 63 * NS, 10 ** 14 * DAY_NS]   # every spelling keeps each component below 2^64
     dtd = sorted(set(base + [-x for x in base] + [rng.randint(-10 ** 16, 10 ** 16) for _ in range(ctx.pick(12, 40))] + [rng.randint(-10 ** 6, 10 ** 6) * NS for _ in range(ctx.pick(6, 20))]))
     ymd = sorted(set([0, 1, 11, 12, 13, 14, 24, 119, 120, 1200, 10 ** 9, 2 ** 31, 10 ** 17, -1, -11, -12, -13, -14, -24, -120, -10 ** 9, -10 ** 17] + [rng.randint(-5000, 5000) for _ in range(ctx.pick(8, 30))]))
     # components
